@@ -32,6 +32,14 @@ def labels(rng, n, pool, default_prefix, kinds=True):
         rng.shuffle(ls)
         return ls
     mode = rng.random()
+    if mode < 0.05 and os.environ.get("SKC_EXOTIC_LABELS", "1") != "0":
+        # strings that are easy to confuse: the empty string, blanks, case pairs that fold onto each other, composed
+        # and decomposed accents, very long labels with a long common prefix, digits-only, quotes
+        exotic = ["", " ", "a", "A", "\u00e9", "e\u0301", "\u00c9", "\u00df", "ss", "SS", "\u0130", "i", "I", "\u0131",
+                  "x" * 150 + "1", "x" * 150 + "2", "x" * 150, "None", "nan", "NaN", "0", "00", "'q'", '"q"', "a b", "a  b",
+                  "\u03a9", "\u2126", "\u00e5", "A\u030a"]
+        if n <= len(exotic):
+            return rng.sample(exotic, n)
     if mode < 0.15:
         return [f"{default_prefix}{i}" for i in range(n)]
     if n <= len(pool) and mode < 0.9:
